@@ -284,8 +284,10 @@ def composite_tie(ctx):
 # ----------------------------------------------------------------------------------------------- tie: navigation helpers
 
 def tagged_or_error(f):
+    """the value, or the exception as a verdict (anything but the modelled TypeError shows up as a divergence with the input, never as an engine crash)"""
     try: return {'ok': enc(f())}
     except TypeError: return {'error': 'TypeError'}
+    except Exception as e: return {'error': 'unexpected ' + type(e).__name__}
 
 
 class Json1:
@@ -325,6 +327,8 @@ def nav_tie(ctx, lits):
             q = sq.py_json_unwrap(sq.py_json_extract(text, NONEXIST, ptext)); real['query'] = {'ok': q}
         except TypeError:
             q = None; real['query'] = {'error': 'TypeError'}
+        except Exception as e:
+            q = None; real['query'] = {'error': 'unexpected ' + type(e).__name__}
         real['extract1'] = tagged_or_error(lambda: sq.py_json_extract(text, ptext))
         real['nonzero'] = (q not in lits) if q is not None else None
         real['udfNonzero'] = tagged_or_error(lambda: sq.py_json_nonzero(text, ptext))
@@ -755,6 +759,46 @@ def fixed_comparisons(ctx, orc):
                     orc.json_op(j1, rids[j1], FIXED_DOC, path, 'cmp', (cop, c, c_param), as_params=rng.random() < 0.3, gen=True)
 
 
+# strings with every kind of character json.dumps writes escaped (and some it does not): as dict keys, list items and searched keys
+ESCAPED_STRS = ['say "hi"', '"', 'back\\slash', '\\', 'line1\nline2', 'tab\there', 'cr\rx', 'bell\x07', 'nul\x00x', '\x1f', 'del\x7f', 'a/b', 'é', '\u20ac', '\U0001F600 face', 'q\\"z',
+                "it's", 'plain', '', ' ', '\\n', 'u\\u0041']
+
+
+def oracle_json_in(ctx, orc):
+    """`k in x.data[...]` / `k not in x.data[...]` on dicts (keys) and lists (items), top level and under a path, where keys / items / the
+    searched string contain characters JSON escapes; literal and parameter, generator and string query, JSON1 on and off: rows == Python"""
+    rng = ctx.rng
+    for _ in range(ctx.scale(10, 80)):
+        keys = rng.sample(ESCAPED_STRS, rng.choice([3, 5, 7]))
+        items = rng.sample(ESCAPED_STRS, rng.choice([2, 4, 6]))
+        doc = {k: rng.choice([1, None, 'v', [k]]) for k in keys}              # top level: a dict with escaped keys
+        doc['tags'] = items + [1, None]                                        # under a path: a list with escaped items
+        doc['nested'] = {'d': {k: 0 for k in rng.sample(ESCAPED_STRS, 3)}, 'l': [rng.sample(ESCAPED_STRS, 2), 'x']}
+        rids = {j1: orc.store(j1, data=doc) for j1 in (True, False)}
+        targets = [[], ['tags'], ['nested', 'd'], ['nested', 'l', 0]]
+        for path in targets:
+            v = py_navigate(doc, path)[1]
+            present = sorted(x for x in v if isinstance(x, str))
+            absent = [s for s in ESCAPED_STRS if s not in v]
+            probes = rng.sample(present, min(len(present), 3)) + rng.sample(absent, min(len(absent), 2))
+            for key in probes:
+                for neg in (False, True):
+                    k_param = rng.random() < 0.5; gen = rng.random() < 0.6
+                    # a NUL inside a string LITERAL is refused by sqlite3 for any query ("the query contains a null character": constant
+                    # quoting, property C06, fix proposal fixes/C29-sqlite-literal-nul.diff): such a string is searched for as a parameter
+                    if '\x00' in key: k_param = True
+                    for j1 in (True, False):
+                        orc.json_op(j1, rids[j1], doc, path, 'in', (key, k_param, neg), as_params=rng.random() < 0.3, gen=gen)
+                        ctx.count('json-in:%s:%s' % ('top' if not path else 'path', 'present' if key in v else 'absent'))
+    # a top-level LIST document, too
+    doc = list(ESCAPED_STRS[:8]) + [3]
+    rids = {j1: orc.store(j1, data=doc) for j1 in (True, False)}
+    for key in ESCAPED_STRS[:10]:
+        for neg in (False, True):
+            for j1 in (True, False):
+                orc.json_op(j1, rids[j1], doc, [], 'in', (key, rng.random() < 0.5 or '\x00' in key, neg), gen=True)
+
+
 def scalar_like(rng, v):
     """a constant of the same type as v (so that the comparison is the type-matched one the translator casts for)"""
     if isinstance(v, bool): return rng.choice([True, False])
@@ -914,6 +958,7 @@ def run(ctx):
     orc = Oracle(ctx, lits)
     witnesses(ctx, orc)
     fixed_comparisons(ctx, orc)
+    oracle_json_in(ctx, orc)
     oracle_json(ctx, orc)
     oracle_json_multi(ctx, orc)
     oracle_array(ctx, orc, clamp)
